@@ -45,9 +45,22 @@ impl WalPathManager {
 
     pub(crate) fn create_new_file(&self) -> std::io::Result<String> {
         self.ensure_root()?;
-        let file_name = now_millis_str();
-        let path = self.root.join(&file_name);
-        let f = std::fs::File::create(&path)?;
+        // Never truncate an existing WAL file: after a restart the wall clock can land on a
+        // name that is already taken (names are bumped past the clock within one process, and
+        // the clock may step back). `now_millis_str` is strictly increasing, so this terminates.
+        let (path, f) = loop {
+            let file_name = now_millis_str();
+            let path = self.root.join(&file_name);
+            match std::fs::OpenOptions::new()
+                .write(true)
+                .create_new(true)
+                .open(&path)
+            {
+                Ok(f) => break (path, f),
+                Err(e) if e.kind() == std::io::ErrorKind::AlreadyExists => continue,
+                Err(e) => return Err(e),
+            }
+        };
         f.set_len(MAX_FILE_SIZE)?;
 
         // Sync file metadata (size, etc.) to disk
